@@ -261,6 +261,12 @@ def env_generator_attrs(ctx: Ctx):
     mtvrp_demand_classes(ctx)
     mtvrp_preset_order(ctx)
     clustered_samplers(ctx)
+    _base = ctx.repo.get_class(UT, "Generator")
+    sampler_range_once(ctx, [c for c in ctx.repo.subclasses(_base) if c.module.name.startswith("rl4co.envs")])
+    paired_count_even(ctx)
+    feasibility_guards(ctx)
+    mcp_membership_width(ctx)
+    mtvrp_horizon_guard(ctx)
     # C18.f: MTVRP generator -- time windows / service times are times, built from distances through the speed
     from .. import units
     menv = EnvA(ctx.repo, T.ALL_ENVS["MTVRPEnv"], "MTVRPEnv")
@@ -836,6 +842,402 @@ def atsp_triangle(ctx: Ctx):
             ok = form and all_pivots and not exits and diag
             why = f"d <- min(d, d[:, :, [i]] + d[:, [i], :]): {form}; for every pivot i in range(num_loc): {all_pivots}; no early exit from the pivot loop: {not exits}; zero diagonal: {diag}"
     ctx.ob("C18.e", "ATSPGenerator._generate:triangle-closure", ok, fi.loc, why, construct="ATSPGenerator._generate:floyd-warshall")
+
+
+def _parents(root):
+    par = {}
+    for n in ast.walk(root):
+        for c in ast.iter_child_nodes(n):
+            par[c] = n
+    return par
+
+
+def _apoly(e, atom):
+    """AST arithmetic -> {monomial (sorted tuple of atom names): coefficient}; `atom(e)` names opaque leaves or returns None."""
+    if isinstance(e, ast.Constant) and isinstance(e.value, (int, float)) and not isinstance(e.value, bool):
+        return {(): float(e.value)} if e.value else {}
+    a = atom(e)
+    if a is not None:
+        return {(a,): 1.0}
+    if isinstance(e, ast.UnaryOp) and isinstance(e.op, ast.USub):
+        return {k: -v for k, v in _apoly(e.operand, atom).items()}
+    if isinstance(e, ast.BinOp) and isinstance(e.op, (ast.Add, ast.Sub, ast.Mult)):
+        l, r = _apoly(e.left, atom), _apoly(e.right, atom)
+        out = {}
+        if isinstance(e.op, ast.Mult):
+            for k1, v1 in l.items():
+                for k2, v2 in r.items():
+                    k = tuple(sorted(k1 + k2))
+                    out[k] = out.get(k, 0.0) + v1 * v2
+        else:
+            sg = 1.0 if isinstance(e.op, ast.Add) else -1.0
+            out = dict(l)
+            for k, v in r.items():
+                out[k] = out.get(k, 0.0) + sg * v
+        return {k: v for k, v in out.items() if v}
+    raise ValueError(ast.unparse(e))
+
+
+def sampler_range_once(ctx: Ctx, gens):
+    """C18.n the documented range [lo, hi] of a sampled quantity is applied exactly once.  A sampler is built either over the
+    constructor's range parameters (`get_sampler(name, dist, lo, hi)`: the draw is used as it is) or over the unit interval
+    (`get_sampler(name, dist, 0, 1)`: every draw is mapped by `x * (self.hi - self.lo) + self.lo`).  Building it over (lo, hi)
+    AND rescaling the draw by the same pair maps [lo, hi] to [lo + lo*(hi-lo), lo + hi*(hi-lo)], which leaves the documented range
+    for every non-default configuration; building it over the unit interval without the rescale ignores the range."""
+    n_inst = 0
+    for g in sorted(gens, key=lambda c: c.fq):
+        if not ctx.repo.mro_fully_in_repo(g):
+            continue
+        ini = g.methods.get("__init__")
+        if ini is None:
+            continue
+        params = set(ini.params())
+        # self.X = <ctor param>
+        attr_of_param = {}
+        for n in ast.walk(ini.node):
+            if isinstance(n, ast.Assign) and len(n.targets) == 1 and isinstance(n.targets[0], ast.Attribute) and isinstance(n.targets[0].value, ast.Name) \
+                    and n.targets[0].value.id == "self" and isinstance(n.value, ast.Name) and n.value.id in params:
+                attr_of_param.setdefault(n.value.id, set()).add(n.targets[0].attr)
+        for n in ast.walk(ini.node):
+            if not (isinstance(n, ast.Assign) and len(n.targets) == 1 and isinstance(n.targets[0], ast.Attribute) and isinstance(n.targets[0].value, ast.Name)
+                    and n.targets[0].value.id == "self"):
+                continue
+            calls = [c for c in ast.walk(n.value) if isinstance(c, ast.Call) and getattr(c.func, "id", "") == "get_sampler"]
+            if len(calls) != 1:
+                continue
+            call = calls[0]
+            sattr = n.targets[0].attr
+            kws = {k.arg: k.value for k in call.keywords if k.arg}
+            lo_e = kws.get("low", call.args[2] if len(call.args) > 2 else None)
+            hi_e = kws.get("high", call.args[3] if len(call.args) > 3 else None)
+            if lo_e is None or hi_e is None:
+                continue
+            name_e = call.args[0] if call.args else kws.get("name")
+            sname = name_e.value if isinstance(name_e, ast.Constant) else None
+            if isinstance(lo_e, ast.Name) and isinstance(hi_e, ast.Name) and lo_e.id in params and hi_e.id in params:
+                kind, lo_p, hi_p = "ranged", lo_e.id, hi_e.id
+            elif isinstance(lo_e, ast.Constant) and isinstance(hi_e, ast.Constant) and float(lo_e.value) == 0.0 and float(hi_e.value) == 1.0:
+                kind = "unit"
+                lo_p, hi_p = f"min_{sname}", f"max_{sname}"
+                if not (lo_p in params and hi_p in params):
+                    continue            # a unit sampler of a quantity without a configurable range
+            else:
+                continue
+            lo_attrs, hi_attrs = attr_of_param.get(lo_p, set()), attr_of_param.get(hi_p, set())
+            # every draw
+            for m in g.methods.values():
+                if m.name == "__init__":
+                    continue
+                par = _parents(m.node)
+                for c in ast.walk(m.node):
+                    if not (isinstance(c, ast.Call) and isinstance(c.func, ast.Attribute) and c.func.attr == "sample" and isinstance(c.func.value, ast.Attribute)
+                            and isinstance(c.func.value.value, ast.Name) and c.func.value.value.id == "self" and c.func.value.attr == sattr):
+                        continue
+                    # the arithmetic expression the draw sits in (directly, or through the local it is assigned to)
+                    top = c
+                    while isinstance(par.get(top), (ast.BinOp, ast.UnaryOp)):
+                        top = par[top]
+                    exprs = [(top, c)]
+                    st = par.get(top)
+                    if top is c and isinstance(st, ast.Assign) and len(st.targets) == 1 and isinstance(st.targets[0], ast.Name):
+                        loc = st.targets[0].id
+                        for u in ast.walk(m.node):
+                            if isinstance(u, ast.Name) and u.id == loc and isinstance(u.ctx, ast.Load) and isinstance(par.get(u), ast.BinOp):
+                                t2 = u
+                                while isinstance(par.get(t2), (ast.BinOp, ast.UnaryOp)):
+                                    t2 = par[t2]
+                                exprs.append((t2, u))
+                    rescaled = False
+                    for top_e, leaf in exprs:
+                        if top_e is leaf:
+                            continue
+                        def atom(e, leaf=leaf):
+                            if e is leaf:
+                                return "x"
+                            if isinstance(e, ast.Attribute) and isinstance(e.value, ast.Name) and e.value.id == "self":
+                                return "lo" if e.attr in lo_attrs else "hi" if e.attr in hi_attrs else None
+                            return None
+                        try:
+                            pol = _apoly(top_e, atom)
+                        except ValueError:
+                            continue
+                        if pol == {("hi", "x"): 1.0, ("lo", "x"): -1.0, ("lo",): 1.0}:
+                            rescaled = True
+                    n_inst += 1
+                    ok = rescaled if kind == "unit" else not rescaled
+                    why = (f"self.{sattr} is built over " + ("the unit interval" if kind == "unit" else f"({lo_p}, {hi_p})") + "; this draw is " +
+                           ("mapped by x * (hi - lo) + lo" if rescaled else "used as drawn") + ": the range is applied " +
+                           ("once" if ok else ("twice" if kind == "ranged" else "never")))
+                    ctx.ob("C18.n", f"{g.name}.{m.name}:self.{sattr}:range-once", ok, f"{g.module.relpath}:{c.lineno}", why,
+                           construct=f"{g.name}:sampler-range:{sattr}")
+    if n_inst < 22:
+        raise AnalysisError(f"only {n_inst} sampler draws with a configurable range found")
+
+
+def paired_count_even(ctx: Ctx):
+    """C18.o pickup-and-delivery generators split the customers into two halves (pickup i, delivery i + n/2): the customer count
+    the generator works with must be even for every requested `num_loc`.  Decided by abstract interpretation of the constructor
+    in the parity domain, once for an odd and once for an even argument: `self.num_loc` must come out even in both."""
+    GEN = (("rl4co/envs/routing/pdp/generator.py", "PDPGenerator"), ("rl4co/envs/routing/mdcpdp/generator.py", "MDCPDPGenerator"),
+           ("rl4co/envs/routing/mpdp/generator.py", "MPDPGenerator"))
+    P = "num_loc"
+
+    def par_expr(e, env):
+        """set of possible parities (0/1) of an int expression"""
+        if isinstance(e, ast.Constant) and isinstance(e.value, int) and not isinstance(e.value, bool):
+            return {e.value % 2}
+        if isinstance(e, ast.Name) and e.id in env:
+            return env[e.id]
+        if isinstance(e, ast.Attribute) and isinstance(e.value, ast.Name) and e.value.id == "self" and ("self." + e.attr) in env:
+            return env["self." + e.attr]
+        if isinstance(e, ast.BinOp):
+            l, r = par_expr(e.left, env), par_expr(e.right, env)
+            if isinstance(e.op, (ast.Add, ast.Sub)):
+                return {(a + b) % 2 for a in l for b in r}
+            if isinstance(e.op, ast.Mult):
+                return {(a * b) % 2 for a in l for b in r}
+            if isinstance(e.op, ast.Mod) and isinstance(e.right, ast.Constant) and e.right.value == 2:
+                return set(l)
+            return {0, 1}
+        if isinstance(e, ast.IfExp):
+            t = truth(e.test, env)
+            out = set()
+            if True in t:
+                out |= par_expr(e.body, env)
+            if False in t:
+                out |= par_expr(e.orelse, env)
+            return out
+        return {0, 1}
+
+    def truth(t, env):
+        if isinstance(t, ast.UnaryOp) and isinstance(t.op, ast.Not):
+            return {not x for x in truth(t.operand, env)}
+        if isinstance(t, ast.Compare) and len(t.ops) == 1:
+            l, r = t.left, t.comparators[0]
+            def mod2(x):
+                return isinstance(x, ast.BinOp) and isinstance(x.op, ast.Mod) and isinstance(x.right, ast.Constant) and x.right.value == 2
+            if mod2(l) or mod2(r):
+                pl, pr = par_expr(l, env), par_expr(r, env)
+                if isinstance(t.ops[0], ast.Eq):
+                    return {a == b for a in pl for b in pr}
+                if isinstance(t.ops[0], ast.NotEq):
+                    return {a != b for a in pl for b in pr}
+                if isinstance(t.ops[0], ast.Gt):
+                    return {a > b for a in pl for b in pr}
+                if isinstance(t.ops[0], ast.Lt):
+                    return {a < b for a in pl for b in pr}
+            return {True, False}
+        if isinstance(t, ast.BinOp) and isinstance(t.op, ast.Mod) and isinstance(t.right, ast.Constant) and t.right.value == 2:
+            return {bool(a) for a in par_expr(t, env)}
+        return {True, False}
+
+    def run_block(stmts, env):
+        for st in stmts:
+            if isinstance(st, ast.Assign) and len(st.targets) == 1:
+                tg = st.targets[0]
+                key = tg.id if isinstance(tg, ast.Name) else ("self." + tg.attr if isinstance(tg, ast.Attribute) and isinstance(tg.value, ast.Name) and tg.value.id == "self" else None)
+                if key is not None:
+                    env[key] = par_expr(st.value, env)
+            elif isinstance(st, ast.AugAssign):
+                tg = st.target
+                key = tg.id if isinstance(tg, ast.Name) else ("self." + tg.attr if isinstance(tg, ast.Attribute) and isinstance(tg.value, ast.Name) and tg.value.id == "self" else None)
+                if key is not None:
+                    cur = env.get(key, {0, 1})
+                    v = par_expr(st.value, env)
+                    env[key] = ({(a + b) % 2 for a in cur for b in v} if isinstance(st.op, (ast.Add, ast.Sub)) else
+                                {(a * b) % 2 for a in cur for b in v} if isinstance(st.op, ast.Mult) else {0, 1})
+            elif isinstance(st, ast.If):
+                t = truth(st.test, env)
+                outs = []
+                if True in t:
+                    e1 = {k: set(v) for k, v in env.items()}
+                    run_block(st.body, e1)
+                    outs.append(e1)
+                if False in t:
+                    e2 = {k: set(v) for k, v in env.items()}
+                    run_block(st.orelse, e2)
+                    outs.append(e2)
+                keys = set().union(*[set(o) for o in outs])
+                env.clear()
+                for k in keys:
+                    env[k] = set().union(*[o.get(k, {0, 1}) for o in outs])
+            elif isinstance(st, (ast.For, ast.While, ast.With, ast.Try)):
+                for n in ast.walk(st):
+                    if isinstance(n, (ast.Assign, ast.AugAssign)):
+                        for tg in (n.targets if isinstance(n, ast.Assign) else [n.target]):
+                            key = tg.id if isinstance(tg, ast.Name) else ("self." + tg.attr if isinstance(tg, ast.Attribute) and isinstance(tg.value, ast.Name) and tg.value.id == "self" else None)
+                            if key is not None:
+                                env[key] = {0, 1}
+
+    for path, cname in GEN:
+        g = ctx.repo.get_class(path, cname)
+        ini = g.methods.get("__init__")
+        if ini is None or P not in ini.params():
+            raise AnalysisError(f"{cname}.__init__({P}) not found")
+        ctx.fn(ini)
+        res = {}
+        for parity in (0, 1):
+            env = {P: {parity}}
+            run_block(ini.node.body, env)
+            res[parity] = env.get("self." + P)
+        if any(v is None for v in res.values()):
+            raise AnalysisError(f"{cname}.__init__ never assigns self.{P}")
+        ok = all(v == {0} for v in res.values())
+        ctx.ob("C18.o", f"{cname}:even-customer-count", ok, ini.loc,
+               f"parity of self.{P} after the constructor: even argument -> {sorted(res[0])}, odd argument -> {sorted(res[1])} (0 = even)" +
+               ("" if ok else f" -- an odd {P} reaches _generate and the env's pickup/delivery halves no longer pair up"),
+               construct=f"{cname}.__init__:num_loc-parity")
+
+
+def feasibility_guards(ctx: Ctx):
+    """C18.p generators that refuse unsolvable draws do so with an assertion over the generated tensors.  Must-pass-through:
+    the assertion is a statement of the method's top-level sequence and no `return` of the method precedes it, so every
+    instance handed out went through the guard.  For the MTVRP distance limit the guard itself is the round trip
+    `2 * dist(depot, node) < distance_limit` for every node."""
+    SITES = (("rl4co/envs/routing/mtvrp/generator.py", "MTVRPGenerator", "generate_distance_limit"),
+             ("rl4co/envs/routing/mtvrp/generator.py", "MTVRPGenerator", "generate_time_windows"),
+             ("rl4co/envs/routing/cvrptw/generator.py", "CVRPTWGenerator", "_generate"),
+             ("rl4co/envs/scheduling/jssp/generator.py", "JSSPGenerator", "_simulate_processing_times"))
+
+    def is_guard(st):
+        """an assertion over all entries of a generated tensor: `assert (...).all()` / `assert torch.all(...)`"""
+        if not isinstance(st, ast.Assert):
+            return False
+        for c in ast.walk(st.test):
+            if isinstance(c, ast.Call) and ((isinstance(c.func, ast.Attribute) and c.func.attr == "all") or ast.unparse(c.func) == "torch.all"):
+                return True
+        return False
+
+    for path, cname, meth in SITES:
+        g = ctx.repo.get_class(path, cname)
+        fi = g.methods.get(meth)
+        if fi is None:
+            raise AnalysisError(f"{cname}.{meth} not found")
+        ctx.fn(fi)
+        body = fi.node.body
+        guards = [i for i, st in enumerate(body) if is_guard(st)]
+        nested = [n for n in ast.walk(fi.node) if is_guard(n) and n not in body]
+        if not guards:
+            ok, why = False, ("the feasibility assertion over the generated tensor is " + ("nested under a condition or loop" if nested else "gone") +
+                              ": instances are handed out without the guard")
+        else:
+            gi = guards[0]
+            early = [n for st in body[:gi] for n in ast.walk(st) if isinstance(n, ast.Return)]
+            ok = not early
+            why = (f"assert at top level of {meth} (statement {gi + 1} of {len(body)}); returns before it: {len(early)}" +
+                   ("" if ok else f" (line {early[0].lineno}) -- that path hands out instances the guard never saw"))
+        ctx.ob("C18.p", f"{cname}.{meth}:guard-on-every-path", ok, fi.loc, why, construct=f"{cname}.{meth}:guard-dominates-return")
+    # content of the MTVRP guard
+    g = ctx.repo.get_class(SITES[0][0], SITES[0][1])
+    fi = g.methods[SITES[0][2]]
+    it = vg.Interp(ctx.repo, g, inline_policy=lambda f, a: False)
+    fr = it.run_function(fi)
+    asserts = [e for e in it.events if e.kind == "assert" and isinstance(e.data, vg.S)]
+    ok, why = False, f"{len(asserts)} assertion(s) in the value graph"
+    for e in asserts:
+        test = e.data
+        for n in vg.walk(test):
+            c = nf._cmp_raw(n)
+            if c is None:
+                continue
+            l, op, r = c
+            if op in (">", ">="):
+                op, l, r = {">": "<", ">=": "<="}[op], r, l
+            if op not in ("<", "<="):
+                continue
+            if not (r.op == "selfattr" and r.args[0] == "distance_limit"):
+                continue
+            # l = 2 * cdist(locs, locs[:, 0:1, :])
+            try:
+                pol = nf.poly(l)
+            except Exception:
+                continue
+            terms = pol.terms if hasattr(pol, "terms") else None
+            dists = [x for x in vg.walk(l) if nf._fn(x) in ("torch.cdist",)]
+            two = False
+            if terms is not None and len(terms) == 1:
+                (mono, coef), = terms.items()
+                two = coef == 2 and len(mono) == 1
+            depot = False
+            for d in dists:
+                a_, b_ = d.args[1], d.args[2]
+                for x, y in ((a_, b_), (b_, a_)):
+                    if y.op == "sub" and y.args[0] is x:
+                        depot = True
+            ok = two and depot
+            why = f"assert 2 * cdist(locs, depot) {op} self.distance_limit: factor two {two}, distance to the depot column {depot}"
+    ctx.ob("C18.p", "MTVRPGenerator.generate_distance_limit:round-trip", ok, fi.loc, why, construct="MTVRPGenerator.generate_distance_limit:round-trip-guard")
+
+
+def mtvrp_horizon_guard(ctx: Ctx):
+    """C18.p MTVRP time windows: the start is drawn as (1 + (H - 1) * u) * d / speed with u in [0, 1), which lies between the
+    arrival time d / speed and the latest start that still allows service and return exactly when H >= 1.  The method must
+    assert that for every node (the same H, compared in normal form), before anything is returned."""
+    g = ctx.repo.get_class("rl4co/envs/routing/mtvrp/generator.py", "MTVRPGenerator")
+    fi = g.methods["generate_time_windows"]
+    it = vg.Interp(ctx.repo, g, inline_policy=lambda f, a: False)
+    fr = it.run_function(fi)
+    roots = [fr.ret] if isinstance(fr.ret, vg.S) else []
+    H = set()
+    for r in roots:
+        for n in vg.walk(r):
+            # 1 + (X - 1) * rand(...)
+            if n.op != "+" or len(n.args) != 2:
+                continue
+            for one, prod in (n.args, n.args[::-1]):
+                if not (vg.is_const(one, 1) and isinstance(prod, vg.S) and prod.op == "*" and len(prod.args) == 2):
+                    continue
+                for x, u in (prod.args, prod.args[::-1]):
+                    if nf._fn(u) in ("torch.rand", "torch.rand_like") and isinstance(x, vg.S):
+                        p = nf.poly(x) + nf.Poly.const(1)
+                        H.add(p.to_sym().id)
+                        H_poly = p
+    if len(H) != 1:
+        raise AnalysisError(f"MTVRPGenerator.generate_time_windows: window start is not of the form (1 + (H - 1) * u) * d / speed ({len(H)} candidates)")
+    want = nf.cmpnf(vg.mk(">=", H_poly.to_sym(), vg.mk("const", 1)))
+    ok = False
+    seen = []
+    for e in it.events:
+        if e.kind != "assert" or not isinstance(e.data, vg.S):
+            continue
+        for n in vg.walk(e.data):
+            c = nf.cmpnf(n)
+            if c is None:
+                continue
+            seen.append(vg.show(n, 3))
+            if c[1] == want[1] and c[0] == want[0]:
+                ok = True
+    ctx.ob("C18.p", "MTVRPGenerator.generate_time_windows:horizon-guard", ok, fi.loc,
+           f"window start = (1 + (H - 1) * u) * d / speed; assertion H >= 1 over all nodes present: {ok} (assertions seen: {seen[:3]})" +
+           ("" if ok else " -- without it a short horizon / far customer yields a window that closes before the vehicle can arrive"),
+           construct="MTVRPGenerator.generate_time_windows:horizon-guard")
+
+
+def mcp_membership_width(ctx: Ctx):
+    """C18.q MCP: `membership` is a [B, num_sets, W] table of random items cut off per set by `arange(W') < set_size`.  The
+    product only exists when W and W' are the same size for EVERY draw: both must be the same expression (the configured
+    max_size), not one of them a statistic of the drawn sizes."""
+    from ..symshape import SymShape
+    g = ctx.repo.get_class("rl4co/envs/graph/mcp/generator.py", "MCPGenerator")
+    fi = g.methods["_generate"]
+    ctx.fn(fi)
+    it = vg.Interp(ctx.repo, g, inline_policy=lambda f, a: False)
+    fr = it.run_function(fi)
+    cell = fr.ret.cells.get("membership") if isinstance(fr.ret, vg.TD) else None
+    if not isinstance(cell, vg.S):
+        raise AnalysisError("MCPGenerator._generate: membership cell not found")
+    ss = SymShape([])
+    tables = [n for n in vg.walk(cell) if nf._fn(n) == "torch.randint" and ss.rank(n) == 3]
+    ramps = [n for n in vg.walk(cell) if nf._fn(n) == "torch.arange" and len([a for a in n.args[1:] if not (isinstance(a, vg.S) and a.op == "kw")]) == 1]
+    if len(tables) != 1 or len(ramps) != 1:
+        raise AnalysisError(f"MCPGenerator._generate: expected one random item table and one cut-off ramp, found {len(tables)} / {len(ramps)}")
+    w = ss.dim(tables[0], -1)
+    w2 = nf.poly(ramps[0].args[1])
+    ok = w is not None and w == w2
+    ctx.ob("C18.q", "MCPGenerator._generate:membership-width", ok, fi.loc,
+           f"item table width {vg.show(ss._size_items(tables[0])[-1], 3)}; cut-off ramp arange({vg.show(ramps[0].args[1], 3)}): same size for every draw -- {ok}" +
+           ("" if ok else "; the two broadcast only when the draw happens to make them equal, otherwise _generate raises"),
+           construct="MCPGenerator._generate:membership-width")
 
 
 def run_thorough(ctx: Ctx):
